@@ -141,6 +141,19 @@ def analyse(facts):
                 overlap_write = e
                 continue
             raise ir.AnchorMissing("resample_unit: unrecognised copy %s" % show(e)[:80])
+        # self.X[a..b].fill(V)
+        if e.get("k") == "mcall" and e["name"] == "fill" and len(e["args"]) == 1:
+            dst = slice_range(e["recv"], alg, total)
+            if dst is not None and dst[0] in cov:
+                write(dst[0], dst[1], dst[2], e, "fill with %s" % show(e["args"][0]))
+                continue
+            raise ir.AnchorMissing("resample_unit: unrecognised fill %s" % show(e)[:80])
+        # ITER.for_each(|x| *x = V) is the same loop as `for x in ITER { *x = V }`
+        if e.get("k") == "mcall" and e["name"] == "for_each" and ir.as_for(e) is not None:
+            f_ = ir.as_for(e)
+            b_ = f_["body"]["stmts"]
+            if len(b_) == 1 and b_[0].get("e", {}).get("k") == "assign":
+                e = f_
         # for item in self.X.iter_mut().skip(a).take(b) { *item = V }   or  for v in self.X[a..].iter_mut() { *v = V }
         if e.get("k") == "for":
             it = e["iter"]
